@@ -2,12 +2,14 @@
 import numpy as np
 
 import common
+import oracles
+import replay_run
 import ticc_util as tu
 from common import show_list
 
 LEVEL = "proof"
-LEAN_PROPS = ["FastTicc.Props.C09", "FastTicc.Props.Compose", "FastTicc.Props.C01", "FastTicc.Props.C08"]
-LEAN_HELPERS = ["FastTicc.Proofs.MainLoop", "FastTicc.Proofs.Compose"]
+LEAN_PROPS = ["FastTicc.Props.C09", "FastTicc.Props.Compose", "FastTicc.Props.C01", "FastTicc.Props.C08", "FastTicc.Props.Run"]
+LEAN_HELPERS = ["FastTicc.Proofs.MainLoop", "FastTicc.Proofs.Compose", "FastTicc.Proofs.Run"]
 RULE = ("(a) scripted label histories driven through the real fit_stacked_data (the relabel phase's output labelling is "
         "replaced by the script): converge at every round j<=limit+1, oscillate forever, limit in [1,8], labellings that "
         "empty a cluster to force repopulation; (b) traced real runs on random small data; non-trivial = at least 2 "
@@ -159,6 +161,11 @@ def run(ctx):
     else:
         scripts = [c for c in ctx.corpus if c.get("scripted")] + [gen_script(ctx.rng) for _ in range(40 if ctx.quick() else 500)]
         cfgs = [c for c in ctx.corpus if not c.get("scripted")] + [tu.gen_config(ctx.rng) for _ in range(16 if ctx.quick() else 200)]
+        for i, c in enumerate(cfgs):
+            if i % 2 == 1 and not c["joint"] and "beta_vector_seed" not in c:
+                c["beta_vector_seed"] = ctx.rng.randrange(2 ** 31)     # per-pair switching cost with zeros mixed in
+                c["regimes"] = 4                                       # more regimes than clusters: labels are contested
+                c["K"] = 2 if i % 4 == 1 else c["K"]
 
     # ---------------- (a) scripted histories through the real loop
     T, N, W, K = 70, 2, 2, 3
@@ -214,8 +221,52 @@ def run(ctx):
 
     # ---------------- (b) traced real runs
     real_lines, real_meta = [], []
+    whole_lines, whole_meta = [], []
     for cfg in cfgs:
-        res, tr, err, series = tu.execute(cfg)
+        cfg_run = dict(cfg)
+        if cfg.get("beta_vector_seed") is not None:
+            rs_b = np.random.RandomState(cfg["beta_vector_seed"])
+            npts_b = cfg["lens"][0] - cfg["W"] + 1
+            bvec = np.round(rs_b.uniform(1, 30, size=npts_b) * 4) / 4
+            bvec[rs_b.rand(npts_b) < 0.15] = 0.0
+            cfg_run["beta"] = bvec
+        with tu.record_label_assignments() as assign_log:
+            res, tr, err, series = tu.execute(cfg_run)
+        if err is None and tr is not None:
+            # the returned labelling must be a minimum-cost labelling for the returned model: recompute the last
+            # round's cost table from the fitted (mean, MRF) of that round and solve it independently
+            from props import c05
+            from fast_ticc import data_preparation as dp0
+            rounds0 = tr.rounds()
+            if rounds0 and [e["phase"] for e in rounds0[-1]][-2:] == ["opt", "relabel"]:
+                snap = rounds0[-1][-2]["out_snap"]
+                stk = dp0.stack_training_data_multiple_series(series, cfg["W"])
+                try:
+                    tab = np.array([[-c05.indep_ll(stk[p_], np.atleast_1d(cs["mean"]), np.atleast_2d(cs["train"]))
+                                     for cs in snap["clusters"]] for p_ in range(stk.shape[0])])
+                    bb = cfg_run["beta"]
+                    bvals = [float(x) for x in bb] if isinstance(bb, np.ndarray) else [float(bb)] * stk.shape[0]
+                    if cfg["joint"] and len(series) > 1:
+                        tab = None        # joint boundary pricing is C07's (known finding K1)
+                    if tab is not None and np.all(np.isfinite(tab)):
+                        opt_cost, _ = oracles.textbook_dp_float(tab, np.array(bvals))
+                        lab_final = [int(x) for x in rounds0[-1][-1]["out"].point_labels]
+                        got_cost = oracles.path_cost_float(tab, bvals, lab_final)
+                        if got_cost > opt_cost + 1e-7 * (1 + abs(opt_cost)):
+                            ctx.violation("impl-violation",
+                                          f"the returned labelling costs {got_cost} under the returned model; a labelling of cost {opt_cost} exists",
+                                          cfg, {"site": "main-loop", "clause": "returned-labelling-optimal"})
+                        ctx.count("returned_labelling_optimality_checked")
+                except np.linalg.LinAlgError:
+                    pass
+        if err is None and tr is not None and len(whole_lines) < (8 if ctx.quick() else 60):
+            from fast_ticc import data_preparation as dp
+            stacked = dp.stack_training_data_multiple_series(series, cfg["W"])
+            if stacked.shape[0] * stacked.shape[1] <= 1500:
+                built = replay_run.build_line(cfg, tr, stacked, list(assign_log)) if tr.kernel_calls else None
+                if built is not None:
+                    whole_lines.append(built[0])
+                    whole_meta.append((cfg, tr, built[1], built[2]))
         if err is not None:
             ctx.count("runs_raised:" + type(err).__name__)
             ctx.case(("cfg", repr(sorted(cfg.items()))))
@@ -245,3 +296,8 @@ def run(ctx):
                 common.parse_list(parts[4]) != script:
             ctx.violation("correspondence-break", "main-loop model vs fit_stacked_data on a real run's label history",
                           dict(cfg, script=script, impl_trace=impl_trace, model=mo))
+
+    # ---------------- whole-run replay: the real run must be a run of the composed Lean model
+    for (cfg, tr, impl_labels, betas), mo in zip(whole_meta, ctx.driver.run(whole_lines)):
+        verdict = replay_run.compare(ctx, cfg, tr, mo, impl_labels, betas)
+        ctx.count("whole_run_replay:" + verdict)
